@@ -221,12 +221,19 @@ def check_C13(chk):
     nworkers = 8
     chunks = [tuples[k::nworkers] for k in range(nworkers)]
 
+    died = []
+
     def work(chunk):
         eng = uci.Engine()
         res = []
         try:
             for t in chunk:
                 res.append(engine_budget(eng, t))
+                if eng.p.poll() is not None:
+                    # the process is gone: remember how it went, carry on with a fresh one
+                    died.append((t, eng.p.returncode, list(eng.err[-4:])))
+                    eng.kill()
+                    eng = uci.Engine()
             eng.quit()
         finally:
             eng.kill()
@@ -238,9 +245,15 @@ def check_C13(chk):
     for k in range(nworkers):
         for j, r in enumerate(results[k]):
             got[k + j * nworkers] = r
-    stats = {"tuples": len(tuples), "budget_zero": 0, "clamped_to_clock": 0, "movetime": 0, "infinite": 0, "near_u64_edge": 0, "no_timer": 0}
+    stats = {"tuples": len(tuples), "budget_zero": 0, "clamped_to_clock": 0, "movetime": 0, "infinite": 0, "near_u64_edge": 0, "no_timer": 0, "process_died": len(died)}
     dis = []
     nfail = 0
+    for (t, rc, err) in died[:3]:
+        nfail += 1
+        wt, bt, wi, bi, side, mt, inf = t
+        chk.violation("the engine process ended (status %s) on go wtime %s btime %s winc %s binc %s%s, %s to move: %s" % (
+            rc, wt, bt, wi, bi, (" movetime " + mt) if mt != "-" else "", side, "; ".join(err)[:300]),
+            {"tuple": t, "exit_status": rc, "stderr": err, "kind": "crash of the implementation"})
     nontrivial = set()
     for i, t in enumerate(tuples):
         wt, bt, wi, bi, side, mt, inf = t
